@@ -24,8 +24,7 @@ def kf_c01_bankruptcy_weights(case, ic, k, fails):
 # ---------------------------------------------------------------- C01
 def run_c01(run, scratch, seed, tier):
     n = sizes(tier, 300, 6000)
-    st = suites.engine_suite(run, scratch, seed, n, oracle_fns=[("C01 balance sheet", oracles.c01_balance_sheet)],
-                             known=[("c01_bankruptcy_date_weights", kf_c01_bankruptcy_weights)])
+    st = suites.engine_suite(run, scratch, seed, n, oracle_fns=[("C01 balance sheet", oracles.c01_balance_sheet)])
     run.add_suite("engine_histories", st)
     run.cov["rule"] = st["rule"]
 
@@ -322,3 +321,15 @@ def run_c03(run, scratch, seed, tier):
 
 
 PROPS["C03"] = {"props_file": "C03.v", "run": run_c03}
+
+
+# ---------------------------------------------------------------- C08
+def run_c08(run, scratch, seed, tier):
+    st = suites.schedule_suite(run, scratch, seed, sizes(tier, 120, 2500), k_variants=(2 if tier == "quick" else 6))
+    run.add_suite("schedule_suite", st)
+    run.cov["rule"] = st["rule"]
+    est = suites.engine_suite(run, scratch, seed, sizes(tier, 150, 3000))
+    run.add_suite("engine_histories", est)
+
+
+PROPS["C08"] = {"props_file": "C08.v", "run": run_c08}
